@@ -41,6 +41,7 @@ def run_and_judge(wd, label, cases, workers=12, timeout=3000):
         c.setdefault("rules", "[]")
         c.setdefault("shift", 0)
         c.setdefault("tspans", [])
+        c.setdefault("names", 0)
     cp = os.path.join(wd, "cases-%s.ndjson" % label)
     write_ndjson(cp, cases)
     op = os.path.join(wd, "obs-%s.ndjson" % label)
